@@ -131,28 +131,26 @@ End Blind.
 (* ---------------------------------------------------------------- dropping a non-last handle *)
 (* the cell after ops ++ [DropH h] (left) against the cell after ops (right): the same, except
    that handle h is gone on the left and the handle count is one less — and still positive *)
-Definition dn (h : nat) (st1 st0 : state abs_impl) : Prop :=
+Definition dn (h : nat) (st1 st0 : state absZ_impl) : Prop :=
   length (handles st1) = length (handles st0) /\
   (forall k, k <> h -> nth_error (handles st1) k = nth_error (handles st0) k) /\
   a_n (ch st1) = a_n (ch st0) /\ a_last (ch st1) = a_last (ch st0) /\ a_rx (ch st1) = a_rx (ch st0) /\
+  a_epoch (ch st1) = a_epoch (ch st0) /\
   a_tx (ch st0) = S (a_tx (ch st1)) /\ (1 <= a_tx (ch st1))%nat /\
   subs st1 = subs st0 /\ notifier st1 = notifier st0 /\ onc st1 = onc st0.
 
-Lemma achan_eq c c' : a_n c = a_n c' -> a_last c = a_last c' -> a_rx c = a_rx c' -> a_tx c = a_tx c' -> c = c'.
-Proof. destruct c, c'; cbn; intros; subst; reflexivity. Qed.
-
 Lemma dn_step h st1 st0 o : dn h st1 st0 -> spares h o ->
-  dn h (fst (step abs_impl st1 o)) (fst (step abs_impl st0 o)) /\
-  snd (step abs_impl st1 o) = snd (step abs_impl st0 o).
+  dn h (fst (step absZ_impl st1 o)) (fst (step absZ_impl st0 o)) /\
+  snd (step absZ_impl st1 o) = snd (step absZ_impl st0 o).
 Proof.
-  intros (Len & Hk & En & El & Er & Et & Ep & Es & Enf & Eo) [Sp1 Sp2].
+  intros (Len & Hk & En & El & Er & Ee & Et & Ep & Es & Enf & Eo) [Sp1 Sp2].
   destruct st1 as [hs1 c1 l1 nf1 oc1], st0 as [hs0 c0 l0 nf0 oc0];
     cbn [handles ch subs notifier onc] in *. subst l1 nf1 oc1.
   assert (Open : a_open c1 = a_open c0).
   { unfold a_open. rewrite Et. destruct (a_tx c1); [lia|reflexivity]. }
   assert (Same : forall out : out, dn h (St hs1 c1 l0 nf0 oc0) (St hs0 c0 l0 nf0 oc0) /\ out = out).
   { intros out. split; [|reflexivity]. unfold dn; cbn [handles ch subs notifier onc]. repeat split; auto. }
-  destruct o as [k x|k|k|s|s|k|k|x| |]; cbn [step handles ch subs notifier onc abs_impl
+  destruct o as [k x|k|k|s|s|k|k|x| |]; cbn [step handles ch subs notifier onc absZ_impl
       ch_set ch_sub ch_poll ch_droprx ch_clone ch_droptx on_notify on_drop on_poll];
     try (assert (Nk : k <> h) by (intros ->; apply Sp1; reflexivity); rewrite (Hk k Nk)).
   - (* Set_ *) destruct (nth_error hs0 k) as [[g|]|] eqn:A; [|apply Same|apply Same].
@@ -164,20 +162,20 @@ Proof.
         assert (A1 : nth_error hs1 k = Some (Some g)) by (now rewrite (Hk k Nk)).
         now rewrite (nth_error_upd_same _ _ _ _ _ A1).
       - rewrite !nth_error_upd_other by auto. auto. }
-    destruct (Nat.eqb (a_rx c0) 0); cbn [a_n a_last a_rx a_tx]; repeat split; auto; lia.
+    destruct (Nat.eqb (a_rx c0) 0); cbn [a_n a_last a_rx a_tx a_epoch]; repeat split; auto; lia.
   - (* Get *) destruct (nth_error hs0 k) as [[g|]|]; apply Same.
   - (* Subscribe *) destruct (nth_error hs0 k) as [[g|]|]; [|apply Same|apply Same].
     unfold a_sub. cbn [fst snd]. rewrite En. split; [|reflexivity].
-    unfold dn; cbn [handles ch subs notifier onc a_n a_last a_rx a_tx]. rewrite Er. repeat split; auto.
+    unfold dn; cbn [handles ch subs notifier onc a_n a_last a_rx a_tx a_epoch]. rewrite Er. repeat split; auto.
   - (* Poll *) destruct (nth_error l0 s) as [[r|]|]; [|apply Same|apply Same].
     unfold a_poll. rewrite En, El, Open. destruct (r <? a_n c0); cbn [fst snd];
       (split; [unfold dn; cbn [handles ch subs notifier onc]; repeat split; auto | reflexivity]).
   - (* DropSub *) destruct (nth_error l0 s) as [[r|]|]; [|apply Same|apply Same].
     unfold a_droprx. cbn [fst snd]. split; [|reflexivity].
-    unfold dn; cbn [handles ch subs notifier onc a_n a_last a_rx a_tx]. rewrite Er. repeat split; auto.
+    unfold dn; cbn [handles ch subs notifier onc a_n a_last a_rx a_tx a_epoch]. rewrite Er. repeat split; auto.
   - (* CloneH *) destruct (nth_error hs0 k) as [[g|]|] eqn:A; [|apply Same|apply Same].
     cbn [fst snd]. rewrite Len. split; [|reflexivity].
-    unfold dn, a_clone; cbn [handles ch subs notifier onc a_n a_last a_rx a_tx]. rewrite !app_length, Len.
+    unfold dn, a_clone; cbn [handles ch subs notifier onc a_n a_last a_rx a_tx a_epoch]. rewrite !app_length, Len.
     split; [auto|]. split.
     { intros j Nj. destruct (Nat.lt_ge_cases j (length hs0)) as [Lt|Ge].
       - rewrite !nth_error_app1 by lia. auto.
@@ -194,11 +192,11 @@ Proof.
 Qed.
 
 Lemma dn_run h rest : forall st1 st0, dn h st1 st0 -> (forall o, In o rest -> spares h o) ->
-  run_from abs_impl st1 rest = run_from abs_impl st0 rest.
+  run_from absZ_impl st1 rest = run_from absZ_impl st0 rest.
 Proof.
   induction rest as [|o rest IH]; intros st1 st0 D Sp; [reflexivity|].
   destruct (dn_step h st1 st0 o D (Sp o (or_introl eq_refl))) as [D' E]. cbn [run_from].
-  destruct (step abs_impl st1 o) as [a r1], (step abs_impl st0 o) as [b r2]; cbn [fst snd] in *.
+  destruct (step absZ_impl st1 o) as [a r1], (step absZ_impl st0 o) as [b r2]; cbn [fst snd] in *.
   subst r2. f_equal. apply IH; auto. intros x Hx. apply Sp. now right.
 Qed.
 
@@ -212,21 +210,22 @@ Proof.
 Qed.
 
 Lemma cell_drop_nonlast ops h h' rest : h <> h' ->
-  handle_live h (trace abs_impl ops) = true -> handle_live h' (trace abs_impl ops) = true ->
+  handle_live h (trace absZ_impl ops) = true -> handle_live h' (trace absZ_impl ops) = true ->
   (forall o, In o rest -> spares h o) ->
-  exists outs, run abs_impl (ops ++ rest) = run abs_impl ops ++ outs /\
-               run abs_impl (ops ++ DropH h :: rest) = run abs_impl ops ++ ODone :: outs.
+  exists outs, run absZ_impl (ops ++ rest) = run absZ_impl ops ++ outs /\
+               run absZ_impl (ops ++ DropH h :: rest) = run absZ_impl ops ++ ODone :: outs.
 Proof.
   intros N L L' Sp. destruct (Inv_trace ops) as (_ & HH & HT & _).
   apply (InvH_live _ _ h HH) in L as [g Eg]. apply (InvH_live _ _ h' HH) in L' as [g' Eg'].
   pose proof (nlive_two _ _ _ _ _ _ N Eg Eg') as Two.
-  exists (run_from abs_impl (final abs_impl ops) rest). unfold run. rewrite !run_from_app. split; [reflexivity|].
-  f_equal. cbn [run_from step abs_impl ch_droptx]. fold (final abs_impl ops). rewrite Eg. f_equal.
+  exists (run_from absZ_impl (final absZ_impl ops) rest). unfold run. rewrite !run_from_app. split; [reflexivity|].
+  f_equal. cbn [run_from step absZ_impl ch_droptx]. fold (final absZ_impl ops). rewrite Eg. f_equal.
   apply (dn_run h); auto.
-  set (st := final abs_impl ops) in *. destruct st as [hs c l nf oc]; cbn [handles ch] in *.
-  unfold dn, a_droptx; cbn [handles ch subs notifier onc a_n a_last a_rx a_tx]. rewrite length_upd.
+  set (st := final absZ_impl ops) in *. destruct st as [hs c l nf oc]; cbn [handles ch] in *.
+  unfold dn, a_droptx; cbn [handles ch subs notifier onc a_n a_last a_rx a_tx a_epoch]. rewrite length_upd.
   repeat split; auto; try lia.
-  intros k Nk. apply nth_error_upd_other. auto.
+  - intros k Nk. apply nth_error_upd_other. auto.
+  - destruct (Nat.eqb_spec (a_tx c) 1); [lia|reflexivity].
 Qed.
 
 Theorem drop_nonlast I : I = tokio_impl \/ I = smol_impl ->
@@ -237,7 +236,7 @@ Theorem drop_nonlast I : I = tokio_impl \/ I = smol_impl ->
                run I (ops ++ DropH h :: rest) = run I ops ++ ODone :: outs.
 Proof.
   intros HI ops h h' rest. pose proof (modelled I HI) as R.
-  rewrite (trace_eq I abs_impl R), !R. apply cell_drop_nonlast.
+  rewrite (trace_eq I absZ_impl R), !R. apply cell_drop_nonlast.
 Qed.
 
 Theorem any_handle (I : impl) (ops : list op) (h h' : nat) (v : N) (rest : list op) :
